@@ -210,8 +210,10 @@ private:
         std::vector<reason_code> ret;
         for (uint8_t code : codes) {
             auto rc = to_reason_code<reason_codes::category::unsuback>(code);
-            if (rc)
-                ret.push_back(*rc);
+            // an inadmissible Reason Code invalidates the whole packet
+            if (!rc)
+                return {};
+            ret.push_back(*rc);
         }
         return ret;
     }
